@@ -283,6 +283,9 @@ func SSHAuthorizedKeys(info Info, data []byte) (Info, error) {
 	lines := bytes.Split(data, []byte("\n"))
 	var keys []Info
 	for _, l := range lines {
+		if sshLineIsBlankOrComment(l) {
+			continue
+		}
 		pub, comment, _, _, err := ssh.ParseAuthorizedKey(l)
 		if err != nil {
 			return info, fmt.Errorf("ssh.ParseAuthorizedKey: %w", err)
@@ -294,6 +297,18 @@ func SSHAuthorizedKeys(info Info, data []byte) (Info, error) {
 	}
 	info.Children = keys
 	return info, nil
+}
+
+// sshLineIsBlankOrComment reports whether a line of an authorized_keys or known_hosts
+// file holds no entry: what the x/crypto/ssh line parsers look at (the text before a
+// carriage return, white space trimmed) is empty or starts with '#'. Those parsers
+// answer such a line with an error ("no key found", io.EOF), so it must not reach them.
+func sshLineIsBlankOrComment(l []byte) bool {
+	if i := bytes.IndexByte(l, '\r'); i >= 0 {
+		l = l[:i]
+	}
+	l = bytes.TrimSpace(l)
+	return len(l) == 0 || l[0] == '#'
 }
 
 func SSHKnownHosts(info Info, data []byte) (Info, error) {
